@@ -234,7 +234,12 @@ def run(ck, models, tier):
                         ft, ff = (fa, fb) if pos else (fb, fa)
                         rets = []
                         for fx in (ft, ff):
-                            vs2 = tm.try_variants(fx.args[0])
+                            if len(fx.args) > 1:
+                                # an instance of a const-generic function: evaluate the body with its const parameters bound
+                                gens = (tm.facts.fns.get(fx.args[0]) or {}).get("generics") or []
+                                vs2 = tm.try_variants(fx.args[0], tag=("consts", fx.args[1]), gmap=dict(zip(gens, fx.args[1])))
+                            else:
+                                vs2 = tm.try_variants(fx.args[0])
                             rv = None
                             if vs2 and len(vs2) == 1 and vs2[0].status == "returned" and isinstance(vs2[0].ret, Int) and vs2[0].ret.is_const() and not vs2[0].trace:
                                 rv = vs2[0].ret.cval()
